@@ -242,7 +242,7 @@ PStepCore(ps, t) ==
   ELSE CASE f.st = 0 ->
          LET h == HandleDeprecated(ps, f)
          IN IF k = "}" THEN
-               IF Len(ps.stack) = 1 THEN FailD(h.ps)
+               IF Len(ps.stack) = 1 THEN FailD(SetTop(h.ps, h.f))      \* (a dropped option is dropped first)
                ELSE LET n   == Len(ps.stack)
                         c   == h.f
                         p0  == ps.stack[n-1]
